@@ -37,8 +37,7 @@ def null_record_witness(clause, lines):
     if clause != "no_crash":
         return False
     ops = _ops(lines)
-    died = [i for i, o in enumerate(ops) if o and o[0] == "DIED"]
-    if not died:
+    if not any(l.rstrip().endswith("| DIED 11") and l.startswith(("probe", "replay")) for l in lines):
         return False
     damage = [o for o in ops if o[0] in ("probe", "setbytes")]
     return bool(damage) and all("343a6e756c6c2c" in o[3] for o in damage)
@@ -83,7 +82,7 @@ class C12(StdCheck):
             "1200 (thorough 6000) seeded random cases of 8..38 (..58) operations over relay (6 kinds of security object) / connect / "
             "disconnect / ReplayLog / rotate / timer / acknowledge / receive / stop / crash (with byte loss) / start / object removal / "
             "counter preset 49998..50000 / permanent and temporary damage with random bytes, 3 peers with log_duration from "
-            "{-1,0,5,60,3600,86400}, local node master or not; thorough adds 50 003 events through the real counter. evaluations = "
+            "{-1,0,5,60,3600,86400}, local node master or not. evaluations = "
             "operations compared; a case is non-trivial when a replay delivered at least one event (counted by the Lean driver)")
 
     def matches_known(self, entry, finding):
